@@ -101,6 +101,18 @@ def build_case(rng, tier):
     )
     from statham.schema.property import Property
 
+    if rng.random() < 0.06:
+        # the smallest cycle: ONE class that mentions itself (directly or through a wrapper), alone in its tree
+        node = Object.inline("Node", properties={"value": Property(String())})
+        pos = rng.choice(["direct", "items", "anyOf", "additionalProperties", "tuple_items", "not"])
+        held = {"direct": node, "items": Array(node), "anyOf": AnyOf(node, String()), "additionalProperties": Element(additionalProperties=node),
+                "tuple_items": Array([String(), node]), "not": Not(node)}[pos]
+        if rng.random() < 0.5:
+            node.properties["next"] = Property(held)
+        else:
+            node.additionalProperties = held
+        roots = rng.choice([[node], [Array(node)], [node, node], [Element(contains=node)]])
+        return roots, {"n": 1, "edges": "self:" + pos, "cyclic_wanted": True}
     if rng.random() < 0.08:
         # look-alike intermediates: two distinct, structurally identical classes whose children are differently NAMED
         # (themselves look-alike) classes - whatever tells visited nodes apart must go by identity, not by ==
@@ -330,6 +342,24 @@ def run(tier, seed, replay=None):
         bad = oracle(nodes, rootids, order, outcome)
         classes, deps = true_deps(nodes, rootids)
         cyc = any(c in deps[c] for c in classes)
+        if not bad:
+            # the generator is where the order is used: it refuses what the ordering routine refuses (a module declaring a class
+            # before a class it mentions does not import), and orders what it orders
+            from statham.serializers import serialize_python
+            from statham.schema.exceptions import SchemaParseError
+            try:
+                with time_limit(10):
+                    serialize_python(*roots)
+                gen_kind = "ok"
+            except SchemaParseError:
+                gen_kind = "SchemaParseError"
+            except BaseException as exc:  # noqa
+                gen_kind = "other:" + type(exc).__name__
+            stats["generator_calls"] = stats.get("generator_calls", 0) + 1
+            if cyc and gen_kind != "SchemaParseError":
+                bad = "cyclic class dependencies: the ordering routine refuses them, serialize_python %s" % ("returns a module" if gen_kind == "ok" else "raises " + gen_kind)
+            elif not cyc and gen_kind == "SchemaParseError":
+                bad = "acyclic class dependencies, yet serialize_python raises the schema-parse error"
         stats["cyclic" if cyc else "acyclic"] += 1
         stats["classes_hist"][len(classes)] = stats["classes_hist"].get(len(classes), 0) + 1
         for _, kids in nodes:
